@@ -296,7 +296,32 @@ def body(c, ctx):
                 parts |= set(int(x) for x in np.asarray(arr).tolist())
         if parts != gs:
             ctx.fail('dicts_vs_flatten', f'{len(parts ^ gs)} DOFs differ between .nodal/.facet/.edge/.interior and flatten()', **sig)
+    # tags are values: deriving another mesh that redefines the same name must not change what the name means here
+    if what in ('facets', 'cells') and c['spell'] in ('name', 'set_of_names', 'tuple_mixed', 'list_mixed', 'tag_predicate') and filt == 'none' \
+            and mm is not m:
+        if what == 'facets':
+            mm.with_boundaries({'sel': mm.boundary_facets()[:1], 'a': mm.boundary_facets()[-1:], 'b': mm.boundary_facets()[:1]})
+        else:
+            mm.with_subdomains({'sel': np.array([0], dtype=np.int32), 'b': np.array([0], dtype=np.int32)})
+        again = set(int(x) for x in np.asarray(call().flatten()).tolist())
+        if again != gs:
+            ctx.fail('tag_redefined_elsewhere', 'the result of a query by tag name changed after ANOTHER mesh was derived with the same '
+                     'tag name', **sig)
     # complement and set algebra
+    for kindb in ('facet', 'subset'):
+        # the complement is taken in range(N) for every kind of basis
+        if kind == 'wedge' and kindb == 'facet':
+            continue
+        try:
+            ob = (FacetBasis(m, build_element(eld), intorder=1) if kindb == 'facet'
+                  else CellBasis(m, build_element(eld), intorder=1, elements=np.array([0], dtype=np.int32)))
+        except Exception:
+            continue
+        sub_ = np.asarray(gotset)[np.asarray(gotset) < ob.N]
+        cc = ob.complement_dofs(sub_)
+        if ob.N != basis.N or set(cc.tolist()) != set(range(ob.N)) - set(sub_.tolist()):
+            ctx.fail('complement', f'{kindb} basis: complement_dofs is not the set complement in range(N)', **sig)
+            break
     comp = basis.complement_dofs(np.asarray(gotset))
     if set(comp.tolist()) != set(range(basis.N)) - gs or len(comp) != basis.N - len(gs):
         ctx.fail('complement', '', **sig)
